@@ -285,6 +285,29 @@ class Folder:
                 self._exec_block(st.body, e)
         elif isinstance(st, ast.Pass):
             pass
+        elif isinstance(st, ast.Try) and not st.finalbody:
+            # lookups on folded containers raise the genuine exception types: handlers are matched by name
+            try:
+                self._exec_block(st.body, e)
+            except (KeyError, IndexError, ValueError, TypeError, ZeroDivisionError) as exc:
+                for h in st.handlers:
+                    names = []
+                    if h.type is None:
+                        names = [type(exc).__name__]
+                    elif isinstance(h.type, ast.Name):
+                        names = [h.type.id]
+                    elif isinstance(h.type, ast.Tuple):
+                        names = [x.id for x in h.type.elts if isinstance(x, ast.Name)]
+                    if any(n_ in (type(exc).__name__, "Exception", "LookupError" if isinstance(exc, LookupError) else "")
+                           for n_ in names):
+                        if h.name:
+                            e.set(h.name, exc)
+                        self._exec_block(h.body, e)
+                        break
+                else:
+                    raise
+            else:
+                self._exec_block(st.orelse, e)
         elif isinstance(st, ast.Raise):
             raise FoldRaise(f"raise {ast.unparse(st.exc)[:60] if st.exc is not None else ''}")
         else:
@@ -299,6 +322,11 @@ class Folder:
                 raise AnalysisError("constfold: unpacking arity mismatch")
             for tt, vv in zip(t.elts, vals):
                 self._assign(tt, vv, e)
+        elif isinstance(t, ast.Attribute):
+            obj = self._eval(t.value, e)
+            if not isinstance(obj, Stub):
+                raise AnalysisError("constfold: attribute store on a non-stub object")
+            obj.attrs[t.attr] = v
         elif isinstance(t, ast.Subscript):
             obj = self._eval(t.value, e)
             if not isinstance(obj, (dict, list)):
